@@ -203,11 +203,52 @@ Fixpoint shape (p : alg) : bool :=
   match p with
   | BGP _ => true
   | Values rows => forallb sol_wf rows
-  | Union a b | Join _ a b => shape a && shape b
+  | Union a b | Join _ a b | Minus a b | LeftJoin _ a b _ => shape a && shape b
   | Filter _ _ _ q => shape q
+  | Extend _ q _ _ => shape q
   | Graph _ q => shape q
   | _ => false
   end.
+
+(* the members of a LeftJoin / Extend result *)
+Lemma in_leftjoin ds g p1 p2 e m :
+  In m (eval_bu ds g (LeftJoin None p1 p2 e)) ->
+  exists x, In x (eval_bu ds g p1) /\
+    (m = x \/ exists y, In y (eval_bu ds g p2) /\ compatible x y = true /\ m = merge x y).
+Proof.
+  cbn [eval_bu]. intros I. apply in_flat_map in I as [x [Ix I]]. exists x. split; [exact Ix|].
+  destruct (filter _ _) as [|y0 ys] eqn:Fl.
+  - destruct I as [<-|[]]. now left.
+  - right. apply in_map_iff in I as [y [<- Iy]]. rewrite <- Fl in Iy. apply filter_In in Iy as [Iy Cy].
+    apply andb_true_iff in Cy as [Cy _]. eauto.
+Qed.
+
+Definition ext_step ds g (v : var) (e : expr) (m : sol) : sol :=
+  match expr_bu ds g m e with
+  | Some t => match lookup v m with None => bind v t m | Some _ => m end
+  | None => m
+  end.
+
+Lemma ext_step_sub ds g v e m : sub_sol m (ext_step ds g v e m).
+Proof.
+  unfold ext_step. destruct (expr_bu ds g m e); [|apply sub_sol_refl].
+  destruct (lookup v m) eqn:L; [apply sub_sol_refl|].
+  intros w u H. rewrite lookup_bind. destruct (N.eqb w v) eqn:E; [|exact H].
+  apply N.eqb_eq in E; subst. congruence.
+Qed.
+
+Lemma ext_step_wf ds g v e m : sol_wf m = true -> sol_wf (ext_step ds g v e m) = true.
+Proof.
+  intros W. unfold ext_step. destruct (expr_bu ds g m e); [|exact W].
+  destruct (lookup v m); [exact W|now apply wf_bind].
+Qed.
+
+Lemma ext_step_dom ds g v e m w : lookup w (ext_step ds g v e m) <> None -> w = v \/ lookup w m <> None.
+Proof.
+  unfold ext_step. destruct (expr_bu ds g m e); [|auto].
+  destruct (lookup v m); [auto|]. rewrite lookup_bind.
+  destruct (N.eqb w v) eqn:E; [apply N.eqb_eq in E; auto|auto].
+Qed.
 
 Lemma in_join_lists m A B :
   In m (join_lists A B) -> exists x y, In x A /\ In y B /\ compatible x y = true /\ m = merge x y.
@@ -233,8 +274,14 @@ Proof.
   - exact (proj1 (bgp_ext_inv g0 ts [] m eq_refl I)).
   - apply andb_true_iff in S as [S1 S2].
     apply in_join_lists in I as [x [y [Ix [Iy [C ->]]]]]. apply wf_merge. eapply IHp1; eauto.
+  - apply andb_true_iff in S as [S1 S2].
+    change (In m (eval_bu ds g0 (LeftJoin None p1 p2 e))) in I.
+    apply in_leftjoin in I as [x [Ix [->|[y [Iy [C ->]]]]]]; [eapply IHp1; eauto|].
+    apply wf_merge. eapply IHp1; eauto.
   - eapply IHp; eauto. apply filter_In in I. apply I.
   - apply andb_true_iff in S as [S1 S2]. apply in_app_or in I as [I|I]; [eapply IHp1|eapply IHp2]; eauto.
+  - apply andb_true_iff in S as [S1 S2]. apply filter_In in I as [I _]. eapply IHp1; eauto.
+  - apply in_map_iff in I as [m0 [<- I]]. apply (ext_step_wf ds g0 v e). eapply IHp; eauto.
   - rewrite forallb_forall in S. now apply S.
   - destruct g as [t|v].
     + destruct (existsb _ _); [eapply IHp; eauto|destruct I].
@@ -243,33 +290,43 @@ Proof.
 Qed.
 
 Lemma cert_sound ds p : shape p = true ->
-  forall g m v, In m (eval_bu ds g p) -> In v (cert p) -> lookup v m <> None.
+  forall g m w, In m (eval_bu ds g p) -> In w (cert p) -> lookup w m <> None.
 Proof.
-  induction p; cbn [shape]; try discriminate; intros S g0 m v I Iv; cbn [eval_bu] in I; cbn [cert] in Iv.
-  - destruct (bgp_ext_binds _ _ _ _ I) as [B _]. now apply B.
-  - apply andb_true_iff in S as [S1 S2].
+  induction p; cbn [shape]; try discriminate; intros S g0 m w I Iv; cbn [cert] in Iv.
+  - cbn [eval_bu] in I. destruct (bgp_ext_binds _ _ _ _ I) as [B _]. now apply B.
+  - cbn [eval_bu] in I. apply andb_true_iff in S as [S1 S2].
     apply in_join_lists in I as [x [y [Ix [Iy [C ->]]]]].
     assert (Wx := bu_wf ds p1 S1 g0 x Ix). assert (Wy := bu_wf ds p2 S2 g0 y Iy).
     rewrite lookup_merge by exact Wy.
     apply in_app_or in Iv as [Iv|Iv].
-    + specialize (IHp1 S1 g0 x v Ix Iv). destruct (lookup v y); [discriminate|exact IHp1].
-    + specialize (IHp2 S2 g0 y v Iy Iv). destruct (lookup v y); [discriminate|congruence].
-  - apply filter_In in I as [I _]. eapply IHp; eauto.
-  - apply andb_true_iff in S as [S1 S2]. unfold inter in Iv. apply filter_In in Iv as [Iv1 Iv2].
+    + specialize (IHp1 S1 g0 x w Ix Iv). destruct (lookup w y); [discriminate|exact IHp1].
+    + specialize (IHp2 S2 g0 y w Iy Iv). destruct (lookup w y); [discriminate|congruence].
+  - apply andb_true_iff in S as [S1 S2].
+    change (In m (eval_bu ds g0 (LeftJoin None p1 p2 e))) in I.
+    apply in_leftjoin in I as [x [Ix [->|[y [Iy [C ->]]]]]]; [eapply IHp1; eauto|].
+    assert (Wy := bu_wf ds p2 S2 g0 y Iy). rewrite lookup_merge by exact Wy.
+    specialize (IHp1 S1 g0 x w Ix Iv). destruct (lookup w y); [discriminate|exact IHp1].
+  - cbn [eval_bu] in I. apply filter_In in I as [I _]. eapply IHp; eauto.
+  - cbn [eval_bu] in I. apply andb_true_iff in S as [S1 S2]. unfold inter in Iv. apply filter_In in Iv as [Iv1 Iv2].
     apply memv_in in Iv2.
     apply in_app_or in I as [I|I]; [eapply IHp1|eapply IHp2]; eauto.
-  - destruct rows as [|r rs]; [destruct I|].
+  - cbn [eval_bu] in I. apply andb_true_iff in S as [S1 S2]. apply filter_In in I as [I _]. eapply IHp1; eauto.
+  - cbn [eval_bu] in I. apply in_map_iff in I as [m0 [<- I]].
+    specialize (IHp S g0 m0 w I Iv). destruct (lookup w m0) as [u|] eqn:L; [|congruence].
+    change (lookup w (ext_step ds g0 v e m0) <> None).
+    rewrite (ext_step_sub ds g0 v e m0 w u L). discriminate.
+  - cbn [eval_bu] in I. destruct rows as [|r rs]; [destruct I|].
     apply filter_In in Iv as [Iv1 Iv2]. rewrite forallb_forall in Iv2.
-    assert (Hd : In v (dom m)).
+    assert (Hd : In w (dom m)).
     { destruct I as [<-|I]; [exact Iv1|]. apply memv_in. now apply Iv2. }
-    unfold dom in Hd. apply in_map_iff in Hd as [[w u] [E Hd]]. cbn in E. subst w.
-    rewrite forallb_forall in S. rewrite (in_lookup v u m); [discriminate|apply S, I|exact Hd].
-  - destruct g as [t|w].
+    unfold dom in Hd. apply in_map_iff in Hd as [[w' u] [E Hd]]. cbn in E. subst w'.
+    rewrite forallb_forall in S. rewrite (in_lookup w u m); [discriminate|apply S, I|exact Hd].
+  - cbn [eval_bu] in I. destruct g as [t|v'].
     + destruct (existsb _ _); [eapply IHp; eauto|destruct I].
     + apply in_flat_map in I as [ng [_ I]].
       apply in_join_lists in I as [x [y [Ix [[<-|[]] [C ->]]]]].
       rewrite lookup_merge by reflexivity. rewrite lookup_single.
-      destruct (N.eqb v w) eqn:E; [discriminate|].
+      destruct (N.eqb w v') eqn:E; [discriminate|].
       destruct Iv as [->|Iv]; [now rewrite N.eqb_refl in E|]. eapply IHp; eauto.
 Qed.
 
@@ -277,27 +334,38 @@ Lemma lookup_dom v m t : lookup v m = Some t -> In v (dom m).
 Proof. intros L. apply lookup_in in L. unfold dom. apply in_map_iff. exists (v, t). auto. Qed.
 
 Lemma maybe_sound ds p : shape p = true ->
-  forall g m v, In m (eval_bu ds g p) -> lookup v m <> None -> In v (maybe p).
+  forall g m w, In m (eval_bu ds g p) -> lookup w m <> None -> In w (maybe p).
 Proof.
-  induction p; cbn [shape]; try discriminate; intros S g0 m v I L; cbn [eval_bu] in I; cbn [maybe].
-  - destruct (bgp_ext_binds _ _ _ _ I) as [_ D]. destruct (D v L) as [H|H]; [cbn in H; congruence|exact H].
-  - apply andb_true_iff in S as [S1 S2].
+  induction p; cbn [shape]; try discriminate; intros S g0 m w I L; cbn [maybe].
+  - cbn [eval_bu] in I. destruct (bgp_ext_binds _ _ _ _ I) as [_ D]. destruct (D w L) as [H|H]; [cbn in H; congruence|exact H].
+  - cbn [eval_bu] in I. apply andb_true_iff in S as [S1 S2].
     apply in_join_lists in I as [x [y [Ix [Iy [C ->]]]]].
     assert (Wy := bu_wf ds p2 S2 g0 y Iy). rewrite lookup_merge in L by exact Wy.
-    apply in_or_app. destruct (lookup v y) eqn:Ly.
+    apply in_or_app. destruct (lookup w y) eqn:Ly.
     + right. eapply IHp2; eauto. congruence.
     + left. eapply IHp1; eauto.
-  - apply filter_In in I as [I _]. eapply IHp; eauto.
-  - apply andb_true_iff in S as [S1 S2]. apply in_or_app.
+  - apply andb_true_iff in S as [S1 S2].
+    change (In m (eval_bu ds g0 (LeftJoin None p1 p2 e))) in I. apply in_or_app.
+    apply in_leftjoin in I as [x [Ix [->|[y [Iy [C ->]]]]]]; [left; eapply IHp1; eauto|].
+    assert (Wy := bu_wf ds p2 S2 g0 y Iy). rewrite lookup_merge in L by exact Wy.
+    destruct (lookup w y) eqn:Ly.
+    + right. eapply IHp2; eauto. congruence.
+    + left. eapply IHp1; eauto.
+  - cbn [eval_bu] in I. apply filter_In in I as [I _]. eapply IHp; eauto.
+  - cbn [eval_bu] in I. apply andb_true_iff in S as [S1 S2]. apply in_or_app.
     apply in_app_or in I as [I|I]; [left; eapply IHp1|right; eapply IHp2]; eauto.
-  - apply in_flat_map. exists m. split; [exact I|].
-    destruct (lookup v m) eqn:E; [|congruence]. eapply lookup_dom; eauto.
-  - destruct g as [t|w].
+  - cbn [eval_bu] in I. apply andb_true_iff in S as [S1 S2]. apply filter_In in I as [I _]. eapply IHp1; eauto.
+  - cbn [eval_bu] in I. apply in_map_iff in I as [m0 [<- I]].
+    change (lookup w (ext_step ds g0 v e m0) <> None) in L.
+    destruct (ext_step_dom ds g0 v e m0 w L) as [->|L0]; [now left|right; eapply IHp; eauto].
+  - cbn [eval_bu] in I. apply in_flat_map. exists m. split; [exact I|].
+    destruct (lookup w m) eqn:E; [|congruence]. eapply lookup_dom; eauto.
+  - cbn [eval_bu] in I. destruct g as [t|v'].
     + destruct (existsb _ _); [eapply IHp; eauto|destruct I].
     + apply in_flat_map in I as [ng [_ I]].
       apply in_join_lists in I as [x [y [Ix [[<-|[]] [C ->]]]]].
       rewrite lookup_merge in L by reflexivity. rewrite lookup_single in L.
-      destruct (N.eqb v w) eqn:E; [apply N.eqb_eq in E; subst; now left|].
+      destruct (N.eqb w v') eqn:E; [apply N.eqb_eq in E; subst; now left|].
       right. eapply IHp; eauto.
 Qed.
 
@@ -312,7 +380,10 @@ Proof.
   - apply andb_true_iff in S as [S1 S2]. apply orb_true_iff in N as [N|N].
     + rewrite (IHp1 S1 N). reflexivity.
     + rewrite (IHp2 S2 N). apply join_lists_nil_r.
+  - apply andb_true_iff in S as [S1 S2]. rewrite (IHp1 S1 N). reflexivity.
   - rewrite (IHp S N). reflexivity.
   - apply andb_true_iff in S as [S1 S2]. apply andb_true_iff in N as [N1 N2].
     now rewrite (IHp1 S1 N1), (IHp2 S2 N2).
+  - apply andb_true_iff in S as [S1 S2]. rewrite (IHp1 S1 N). reflexivity.
+  - rewrite (IHp S N). reflexivity.
 Qed.
